@@ -95,7 +95,7 @@ def cases(draw, nvariants):
         target = draw(strategies.form_specs(P_TP))
         options = {"sum_factorization": True}
     else:
-        target = draw(strategies.form_specs(P_FORMS))
+        target = draw(strategies.forms(P_FORMS))
     if r != 1:
         # the target's own table tolerances: default, looser, or (almost) exact - the last one makes clamped round-off noise visible
         options = draw(st.sampled_from([{}, {}, {"table_rtol": 1e-3, "table_atol": 1e-4}, {"table_rtol": 1e-14, "table_atol": 1e-20}, {"table_rtol": 0.0, "table_atol": 0.0}]))
